@@ -372,7 +372,13 @@ def stage(o, tier, seed, node_traces=True, probe_finding=True):
                 vlib.conformance(o, FAMILY, "QBFTClusterTrace", cfg_of, PKG, batch[len(sch):], tag="cluster_probe",
                                  exec_timeout=600, tv_timeout=600, dev_cfgs=[(FINDING, cfg_of_dev)])
         if fm:
-            fm.result()     # raises what the thread raised (vlib.Infra)
+            try:
+                fm.result()     # raises what the thread raised (vlib.Infra)
+            except vlib.Infra as e:
+                if not o.violations:
+                    raise
+                # transcripts of a tree that already violates the cluster properties: the verdict is the violation
+                o.notes.append("member transcripts: " + str(e)[:300])
     o.traces += side.traces
     o.trace_events += side.trace_events
     o.trace_states += side.trace_states
